@@ -339,31 +339,30 @@ def gen_program(rng, opts=None):
 FORMAT_TYPES = ["", "d", "b", "o", "x", "X", "c", "s"]
 
 
-def gen_spec(r, w, signed):
+def gen_spec(r, ty=None):
     """format spec from the accepted grammar: [[fill]align][sign][#][0][width][_][type]"""
-    ty = r.choice(FORMAT_TYPES)
+    if ty is None:
+        ty = r.choice(FORMAT_TYPES)
     if ty in ("c", "s"):
         out = ""
         if r.random() < 0.5:
-            fill = r.choice(["", "", "*", ".", " "])
-            out += fill + r.choice(["<", ">", "^"] if False else ["<", ">"])
-            out += str(r.randint(0, 8))
+            out += r.choice(["", "", "*", ".", " ", "0"]) + r.choice(["<", ">"])
+            out += str(r.randint(1, 9))
         elif r.random() < 0.3:
-            out += str(r.randint(1, 8))
+            out += str(r.randint(1, 9))
         return out + ty
     out = ""
     if r.random() < 0.4:
-        out += r.choice(["", "", "*", "_", " ", "z"]) + r.choice(["<", ">", "="])
+        out += r.choice(["", "", "*", "_", " ", "z", "0"]) + r.choice(["<", ">", "="])
     if r.random() < 0.4:
         out += r.choice(["+", "-", " "])
-    if r.random() < 0.3 and ty in ("b", "o", "x", "X"):
+    if r.random() < 0.3:
         out += "#"
-    aligned = any(ch in out for ch in "<>=")
-    if r.random() < 0.3 and not aligned:
+    if r.random() < 0.3:
         out += "0"
-    if r.random() < 0.5 or aligned:
-        out += str(r.randint(1, 12))
-    if r.random() < 0.2 and ty in ("", "d", "b", "o", "x", "X"):
+    if r.random() < 0.6:
+        out += str(r.randint(1, 14))
+    if r.random() < 0.25:
         out += "_"
     return out + ty
 
@@ -373,18 +372,32 @@ def _gen_print(g, r, dom, readable, o):
     chunks = []
     for _ in range(r.randint(1, 3)):
         if r.random() < 0.5:
-            chunks.append(r.choice(["v=", " ", "{x}", "}{", "a:", ""]))
+            chunks.append(r.choice(["v=", " ", "{x}", "}{", "a:", "%d", "\\n"]))
         e = g.explicit(readable, 1)
         w, s = shape_of(e, sigs)
-        spec = gen_spec(r, w, s)
+        spec = gen_spec(r)
         if spec.endswith("c"):
-            # keep code points valid and printable: 7 bits, unsigned
-            e = ["cat", [["slice", e, 0, min(w, 7)]]] if w > 0 else ["const", 65, 7, False]
-        if spec.endswith("s"):
-            e = ["as_unsigned", e] if w > 0 else ["const", 0x6869, 16, False]
+            # a valid code point: 7 bits, unsigned
+            wide = ["cat", [e, ["const", 0x41, 7, False]]]
+            e = ["slice", wide, 0, 7]
+        elif spec.endswith("s"):
+            # ASCII, never NUL: each byte = 6 data bits, then 1, then 0; optionally NUL padding above (trailing)
+            wide = ["cat", [e, ["const", 0x2a5, 12, False]]]
+            ww = shape_of(wide, sigs)[0]
+            parts = []
+            for k in range(r.randint(1, 3)):
+                if 6 * k + 6 <= ww:
+                    parts += [["slice", wide, 6 * k, 6 * k + 6], ["const", 1, 1, False], ["const", 0, 1, False]]
+            if r.random() < 0.4:
+                parts.append(["const", 0, 8 * r.randint(1, 2), False])
+            e = ["cat", parts]
         chunks.append([e, spec])
+    if r.random() < 0.3:
+        chunks.append(r.choice(["!", " end", ""]))
     if o.get("asserts") and r.random() < 0.35:
-        cond = g.numeric(readable, 1)
+        # mostly-true conditions, so that runs make progress before the first failure
+        a = g.explicit(readable, 1)
+        cond = r.choice([["!=", a, ["const", r.randrange(8), 3, False]], g.numeric(readable, 1), ["<", a, ["const", 13, 5, False]]])
         return ["assert", dom, cond, chunks if r.random() < 0.7 else None, r.choice(["assert", "assume"])]
     return ["print", dom, chunks]
 
